@@ -3,8 +3,8 @@ SPECIFICATION Spec
 CONSTANTS
   Kinds = {"slurm", "sge"}
   Modes = {"intended"}
-  MaxPolls = 3
-  ExhLen = 3
+  MaxPolls = 2
+  ExhLen = 2
   SampleMod = 1
   Seed = 0
   OptPlan = "few"
